@@ -793,7 +793,9 @@ class SrvAdapter:
                     return r
                 sio.eio.send = send
             try:
-                if a.get('before'):
+                # (call() creates its event - the point where the others get
+                # ahead - only after it has checked that it may run at all)
+                if a.get('before') and sio.async_handlers:
                     await world(a['before'])
                 call = asyncio.ensure_future(
                     sio.call(a['ev'], val('v1'), to=me._real_sid(a['sid']),
